@@ -12,6 +12,7 @@ import (
 	"github.com/PowerDNS/lightningstream/syncer/events"
 	"github.com/PowerDNS/lightningstream/syncer/hooks"
 	"github.com/PowerDNS/lightningstream/utils"
+	"github.com/PowerDNS/lightningstream/utils/vhook"
 	"github.com/PowerDNS/lmdb-go/lmdb"
 	"github.com/c2h5oh/datasize"
 	"github.com/sirupsen/logrus"
@@ -128,6 +129,7 @@ func (s *Syncer) SendOnce(ctx context.Context, env *lmdb.Env) (txnID header.TxnI
 		return 0, err
 	}
 	tDumped := time.Now()
+	vhook.At(s.instanceID(), "send.after-txn", uint64(txnID))
 
 	// If no actual changes were made, LMDB will not record the transaction
 	// and reuse the ID the next time, so we need to adjust the txnID we return.
@@ -190,6 +192,7 @@ func (s *Syncer) SendOnce(ctx context.Context, env *lmdb.Env) (txnID header.TxnI
 	metricSnapshotsLastTimestamp.WithLabelValues(s.name).Set(float64(ts.UnixNano()) / 1e9)
 	metricSnapshotsLastSize.WithLabelValues(s.name).Set(float64(len(out)))
 
+	vhook.At(s.instanceID(), "send.before-store", uint64(txnID))
 	// Send it to storage
 	for i := 0; i < s.c.StorageRetryCount || s.c.StorageRetryForever; i++ {
 		metricSnapshotsStoreCalls.Inc()
@@ -232,6 +235,7 @@ func (s *Syncer) SendOnce(ctx context.Context, env *lmdb.Env) (txnID header.TxnI
 		metricSnapshotsStoreFailedPermanently.WithLabelValues(s.name).Inc()
 		return 0, err
 	}
+	vhook.At(s.instanceID(), "send.after-store", uint64(txnID))
 	tStored := time.Now()
 
 	var compressionRatio string
